@@ -1,10 +1,12 @@
 SPECIFICATION SpecIdle
 CONSTANTS
   Firers = {"f1", "f2"}
-  NFires = 1
-  Variant = "poller"
+  Variants = {"poller"}
+  Timers = {FALSE}
+  Quotas <- UniformQuotas
+  NFiresSet = {1}
+  MaxFires = 1
   Mutant = "no_qlen"
-  Timer = FALSE
   WithStop = TRUE
 INVARIANT TypeOK
 INVARIANT NoStaleClash
